@@ -11,3 +11,4 @@ CONSTANTS
   MaxVals = 1
   Tbc = TRUE
   ViewHist = 1
+  EmitAll = TRUE
